@@ -296,6 +296,15 @@ func main() {
 			geomgen.Skel{Kind: geomgen.KCollection, Kids: []geomgen.Skel{line(n), {Kind: geomgen.KPoint}, {Kind: geomgen.KMultiPoint, N: n + 1}}},
 		)
 	}
+	// polygons of three and four rings of unequal lengths, alone and as members
+	{
+		rg := func(n int) geomgen.Skel { return geomgen.Skel{Kind: geomgen.KRing, N: n} }
+		p3 := geomgen.Skel{Kind: geomgen.KPolygon, Kids: []geomgen.Skel{rg(4), rg(6), rg(3)}}
+		p4 := geomgen.Skel{Kind: geomgen.KPolygon, Kids: []geomgen.Skel{rg(6), rg(3), rg(5), rg(4)}}
+		skels = append(skels, p3, p4,
+			geomgen.Skel{Kind: geomgen.KMultiPolygon, Kids: []geomgen.Skel{p4, p3}},
+			geomgen.Skel{Kind: geomgen.KCollection, Kids: []geomgen.Skel{{Kind: geomgen.KPoint}, p3, {Kind: geomgen.KMultiLineString, Kids: []geomgen.Skel{{Kind: geomgen.KLineString, N: 3}, {Kind: geomgen.KLineString, N: 5}, {Kind: geomgen.KLineString, N: 2}, {Kind: geomgen.KLineString, N: 4}}}}})
+	}
 	// inverted boxes (Max below Min, finite corners), alone and as members
 	skels = append(skels,
 		geomgen.Skel{Kind: geomgen.KBounds, N: -1},
